@@ -147,6 +147,39 @@ def run(ctx):
                 continue
         nhist += 1
     ctx.cov["kind_swap_histories_conforming"] = nhist
+    # several registries scraped and encoded by ONE call: families of the same name (of the same or of different kinds) end up next to
+    # each other in the list; each is still printed under its own declared type with its samples' real values
+    mjobs = []
+    kinds = {"counter": ("COUNTER", "inc_by"), "gauge": ("GAUGE", "set"), "int_gauge": ("GAUGE", "set"), "int_counter": ("COUNTER", "inc_by")}
+    pairs_k = [(a, b) for a in kinds for b in kinds]
+    for k, (ka, kb) in enumerate(pairs_k):
+        calls = [{"op": "registry", "as": "r1"}, {"op": "registry", "as": "r2"}, {"op": "registry", "as": "r3"},
+                 {"op": ka, "as": "m1", "opts": {"name": "q", "help": "h", "const": [["part", "app"]]}}, {"op": kinds[ka][1], "obj": "m1", "v": 5},
+                 {"op": kb, "as": "m2", "opts": {"name": "q", "help": "h", "const": [["part", "db"]]}}, {"op": kinds[kb][1], "obj": "m2", "v": 7},
+                 {"op": "gauge", "as": "m3", "opts": {"name": "zz", "help": "h"}}, {"op": "set", "obj": "m3", "v": 9},
+                 {"op": "register", "reg": "r1", "obj": "m1"}, {"op": "register", "reg": "r2", "obj": "m2"}, {"op": "register", "reg": "r3", "obj": "m3"},
+                 {"op": "families_concat", "as": "F", "regs": ["r1", "r2", "r3"] if k % 2 == 0 else ["r3", "r1", "r2"]},
+                 {"op": "families_json", "fam": "F"}, {"op": "text_encode", "fam": "F"}]
+        mjobs.append({"id": k, "calls": calls, "kinds": (ka, kb)})
+    mres = run_api(ctx, exe, [{"id": j["id"], "calls": j["calls"]} for j in mjobs], "multi", nproc=2)
+    nmulti = 0
+    for j in mjobs:
+        rs = mres[j["id"]]
+        rp = {"calls": j["calls"], "case": {}}
+        if any("ok" not in x for x in rs):
+            ctx.violation("several-registries:call-failed", "a call failed: %s" % [x for x in rs if "ok" not in x][0], rp)
+            continue
+        text = bytes.fromhex(rs[-1]["ok"]["hex"]).decode("utf-8")
+        tv = text_values(rs[-1]["ok"]["hex"])
+        want = {'q{part="app"}': "5", 'q{part="db"}': "7", "zz": "9"}
+        types = [l.split(" ")[2:] for l in text.split("\n") if l.startswith("# TYPE")]
+        want_types = [[f["name"], f["type"].lower()] for f in rs[-2]["ok"]]
+        if {k: tv.get(k) for k in want} != want or types != want_types:
+            ctx.violation("several-registries:printed-value", "a %s q{part=app}=5 and a %s q{part=db}=7 from two registries encoded by one call: printed %s with TYPE lines %s (families given: %s)" % (
+                j["kinds"][0], j["kinds"][1], {k: tv.get(k) for k in want}, types, want_types), rp)
+            continue
+        nmulti += 1
+    ctx.cov["several_registries_one_encode_conforming"] = nmulti
     ctx.cov.update({
         "traces_validated_against_impl": nok, "configurations": len(cases), "gathers": njobs, "gathers_mixed_kind_configurations": nmixed, "gathers_conforming": nok,
         "samples": [cases[len(cases) // 3]],
